@@ -238,10 +238,14 @@ func run(c Case) vkit.Result {
 	// It is applied where the attacker can predict the resulting plaintext: stream ciphers (v2, v3: XOR differences carry
 	// over) and whole-cipher-block copies under v1's ECB mode. Other modifications of a v1 key garble an 8-byte block into
 	// pseudo-random fields (or, for splices between keys of different salt, fields XOR-ed with an unknown salt difference) the attacker cannot know (exploiting them is the 2^-32 guess this check does not claim to find);
-	// those are counted, and still subject to the probe-set oracle above.
+	// those are counted, and still subject to the probe-set oracle above. Under v3 the two clear salt bytes select the keystream:
+	// a modification that changes them (or splices keys of different salt) decrypts the rest with an unknown keystream difference.
 	labels := []string{fmt.Sprintf("license-v%d", c.Lic), "mod-" + c.Mod.Kind}
 	if msg := fieldGain(e, c, enc, other, mod); msg != "" {
-		predictable := c.Lic >= 2 || (c.Mod.Kind == "splice" && c.Key.Salt == c.Other.Salt) || ((c.Mod.Kind == "swap" || c.Mod.Kind == "dup") && c.Mod.Wide)
+		ra, _ := base64.RawURLEncoding.DecodeString(enc)
+		rb, _ := base64.RawURLEncoding.DecodeString(mod)
+		sameSalt := len(ra) == 24 && len(rb) == 24 && ra[0] == rb[0] && ra[1] == rb[1] && (c.Mod.Kind != "splice" || c.Key.Salt == c.Other.Salt)
+		predictable := c.Lic == 2 || (c.Lic == 3 && sameSalt) || (c.Mod.Kind == "splice" && c.Key.Salt == c.Other.Salt) || ((c.Mod.Kind == "swap" || c.Mod.Kind == "dup") && c.Mod.Wide)
 		if predictable {
 			gained = append(gained, msg)
 		} else {
